@@ -107,6 +107,6 @@ func (c *Ctx) panicSafeLocksRule(rule string) {
 			}
 		})
 	}
-	r.Floor(rule, "lock acquisitions in client and state", nDeferred+nExplicit, 30)
+	r.Floor(rule, "lock acquisitions in client and state", nDeferred+nExplicit, 10)
 	r.Note("%s: %d acquisitions followed at once by a deferred unlock, %d released explicitly, %d panic obligations under explicit holds", rule, nDeferred, nExplicit, nOb)
 }
